@@ -3,8 +3,18 @@ tree (by value) of the estimator and every nested module before vs after every
 fit / partial_fit / predict call, all families, all modes and epsilons; and the
 threshold seen by the first reset-function call of every sample is the
 configured one.  Tie: the per-step thresholds in force are replayed through the
-Lean search (shared with C01's trace tie)."""
+Lean search (shared with C01's trace tie).
+
+"Configured" means the values in force when the call starts, however they got there and whatever their
+Python type: `_reconfigured` repeats the oracle on estimators whose float hyper-parameters are numpy scalars
+(np.float64 is a float subclass and passes validate_params: np.linspace / np.arange grids, an ndarray rho ladder
+handed to SMART, values produced by numpy arithmetic) and on estimators re-configured between two training calls
+by plain attribute assignment (`module.rho = v`, which BaseART.__setattr__ routes into `params`): after every
+later call the parameter tree equals the assigned values, and every later sample is first judged against them."""
 from __future__ import annotations
+
+import copy
+import math
 
 import numpy as np
 
@@ -14,7 +24,9 @@ from ..impl import quiet, exc_enum, params_tree, eq_snap, make, Recorder, MODES
 RULE = ("cases = (family, hyper-parameters incl. nested modules, stream with labels, mode, epsilon, history of "
         "fit/partial_fit/predict); params compared by value around every call; non-trivial when match tracking "
         "actually moved a threshold during the call (reset function vetoed a matching category) or the history has "
-        ">= 2 calls; distinct by hash of (family spec, stream, mode, eps, history)")
+        ">= 2 calls; distinct by hash of (family spec, stream, mode, eps, history); the same with the float "
+        "hyper-parameters held as numpy scalars and/or re-assigned by attribute assignment between two calls "
+        "(non-trivial when a value was re-assigned and training continued, or a threshold moved during a search)")
 
 
 def prepare(ctx):
@@ -143,3 +155,197 @@ def run(ctx):
         cov.case(("reset", cls, fam.spec, desc["rows"], mode, eps, vt), any(any(row) for row in vt))
         cov.hit(f"reset-history:{mode}")
         cov.traces += 1
+    _reconfigured(ctx)
+
+
+# ---------------------------------------------------------------------------------------------------------------
+# hyper-parameters held as numpy scalars / re-assigned by attribute assignment between training calls
+
+
+def _np_spec(spec):
+    """the same configuration with every float hyper-parameter a numpy scalar and SMART's vigilance ladder an
+    ndarray (both allowed by the signatures; np.float64 passes `isinstance(x, float)`)"""
+    if isinstance(spec, dict):
+        return {k: (np.asarray(v, dtype=float) if k == "rho_values" else v if k in ("cls", "base") else _np_spec(v))
+                for k, v in spec.items()}
+    if isinstance(spec, list):
+        return [_np_spec(t) for t in spec]
+    if isinstance(spec, float):
+        return np.float64(spec)
+    return spec
+
+
+def _vigilant_modules(est, path=""):
+    """(path, module) of the estimator and every nested module that owns a vigilance"""
+    d = getattr(est, "__dict__", {})
+    out = []
+    if isinstance(d.get("params"), dict) and "rho" in d["params"]:
+        out.append((path or "self", est))
+    for name in ("module_a", "module_b", "base_module", "fusion_art"):
+        if name in d:
+            out += _vigilant_modules(d[name], f"{path}.{name}" if path else name)
+    if isinstance(d.get("modules"), (list, tuple)):
+        for k, m in enumerate(d["modules"]):
+            out += _vigilant_modules(m, f"{path}.modules[{k}]" if path else f"modules[{k}]")
+    return out
+
+
+def _new_value(r, est, path, mod, key):
+    """another valid value of the hyper-parameter `key` of `mod` (None when there is none): vigilance half-way to
+    the end of its admissible interval (above DualVigilanceART's lower bound, between the neighbouring layers of a
+    SMART ladder, doubled / halved for BayesianART's volume bound), beta half-way towards 1"""
+    cur = float(mod.params[key])
+    if not math.isfinite(cur):
+        return None
+    if key == "beta":
+        cands = [(cur + 1.0) / 2.0]
+    elif "Bayesian" in type(mod).__name__:
+        cands = [cur * 2.0, cur / 2.0]
+    else:
+        lo, hi = 0.0, 1.0
+        ed = getattr(est, "__dict__", {})
+        if path == "base_module" and "rho_lower_bound" in ed.get("params", {}):
+            lo = float(ed["params"]["rho_lower_bound"])
+        if type(est).__name__ == "SMART" and path.startswith("modules["):
+            k = int(path[8:-1])
+            ms = ed["modules"]
+            if k > 0:
+                lo = float(ms[k - 1].params["rho"])
+            if k + 1 < len(ms):
+                hi = float(ms[k + 1].params["rho"])
+        cands = [(cur + hi) / 2.0, (cur + lo) / 2.0]
+    cands = [c for c in cands if c != cur and math.isfinite(c)]
+    return r.choice(cands) if cands else None
+
+
+def _reconfigured(ctx):
+    cov = ctx.cov
+    K = ctx.scale(260, 5000)
+    nmax = ctx.scale(12, 40)
+    names = families.ALL_FAMILIES
+    bare = set(specs.ELEM) | {"FusionART", "DualVigilanceART", "TopoART"}
+    for i in range(K):
+        r = gen.rng_for(ctx.seed, "C07-reconf", i)
+        name = names[i % len(names)]
+        mode = MODES[(i // len(names)) % 5]
+        eps = r.choice([0.0, 2.0 ** -20, 2.0 ** -10, 0.125])
+        variant = r.choice(["np", "assign", "np+assign"])
+        use_np, use_assign = "np" in variant, "assign" in variant
+        fam, rows = families.build(r, name, r.randint(2, nmax), mode=mode, eps=eps)
+        n = len(rows)
+        if use_np:
+            fam_np = copy.copy(fam)
+            fam_np.spec = _np_spec(fam.spec)
+            est = fam_np.make()
+            held = [type(m.params["rho"]).__name__ for _, m in _vigilant_modules(est)]
+            cov.hit("np-scalar-config:" + ("held-as-given" if held and all(h == "float64" for h in held) else "converted"))
+        else:
+            est = fam.make()
+        desc = dict(fam.describe(), rows=rows.tolist(), numpy_scalar_hyper_parameters=use_np, history=[])
+        # bare modules (and the three that run their own search) are driven with a vetoing reset function, so that
+        # match tracking really moves the threshold; compound estimators get their vetoes from the labels
+        use_reset = name in bare and r.random() < 0.8
+        vt = gen.veto_table(r, n, n + 2)
+        inner = est.base_module if name in ("DualVigilanceART", "TopoART") else est
+        state = {"i": -1, "first": True, "conf": None, "bad": None, "moved": False}
+        if use_reset:
+            desc["veto"] = vt
+            if name != "FusionART":
+                state["conf"] = inner.params["rho"]
+            o_step = est.step_fit
+
+            def step(x, *a, _o=o_step, _s=state, **kw):
+                _s["i"] += 1
+                _s["first"] = True
+                return _o(x, *a, **kw)
+            object.__setattr__(est, "step_fit", step)
+
+            def reset(i_, w_, c_, params=None, cache=None, _s=state, _vt=vt, _m=n + 2):
+                rho = params.get("rho") if isinstance(params, dict) else None
+                if _s["conf"] is not None and rho is not None:
+                    if _s["first"] and rho != _s["conf"] and _s["bad"] is None:
+                        _s["bad"] = (_s["i"], rho, _s["conf"])
+                    elif not _s["first"] and rho != _s["conf"]:
+                        _s["moved"] = True
+                _s["first"] = False
+                return not _vt[_s["i"]][int(c_) % _m]
+
+        def train(op, sl):
+            if use_reset:
+                with quiet():
+                    (est.partial_fit if op == "pfit" else est.fit)(sl.arrs["X"], match_reset_func=reset,
+                                                                   match_tracking=mode, epsilon=eps)
+            else:
+                (fam.pfit if op == "pfit" else fam.fit)(est, sl)
+
+        parts = gen.compositions(r, n)
+        if len(parts) == 1:
+            parts = [n - n // 2, n // 2]
+        before = params_tree(est)
+        j = 0
+        ncalls = 0
+        assigned = 0
+        failed = False
+        for ci, p in enumerate(parts):
+            if use_assign and ci > 0 and r.random() < 0.7:
+                # re-configuration by plain attribute assignment between two training calls
+                targets = _vigilant_modules(est)
+                if targets:
+                    path, mod = r.choice(targets)
+                    key = "beta" if isinstance(mod.params.get("beta"), float) and r.random() < 0.25 else "rho"
+                    v = _new_value(r, est, path, mod, key)
+                    if v is not None:
+                        as_np = use_np or r.random() < 0.3
+                        with quiet():
+                            setattr(mod, key, np.float64(v) if as_np else v)
+                        if mod.params.get(key) == v:
+                            desc["history"].append({"assign": f"{path}.{key}", "value": v, "numpy_scalar": as_np})
+                            before = params_tree(est)
+                            if key == "rho" and mod is inner and state["conf"] is not None:
+                                state["conf"] = v
+                            assigned += 1
+                            cov.hit(f"attribute-assignment-between-calls:{key}" + ("" if path == "self" else ":nested")
+                                    + (":numpy-scalar" if as_np else ""))
+                        else:
+                            cov.hit(f"attribute-assignment-not-routed-into-params:{name}")
+            sl = rows.sl(j, j + p)
+            j += p
+            op = "pfit" if (fam.has_pfit and (not fam.has_fit or r.random() < 0.8)) else "fit"
+            desc["history"].append({"call": op, "rows_slice": [j - p, j]})
+            try:
+                train(op, sl)
+            except Exception as e:
+                cov.hit(f"reconf-train-raised:{name}:{exc_enum(e)}")
+                break
+            ncalls += 1
+            after = params_tree(est)
+            what = ("numpy-scalar hyper-parameters" if use_np else "") + ("+" if use_np and assigned else "") + \
+                   ("attribute assignment" if assigned else "")
+            if not eq_snap(before, after):
+                ctx.issue("violation", f"{name}.{op}:params-changed:{'numpy-scalar' if use_np and not assigned else 'after-attribute-assignment' if assigned else 'plain'}",
+                          f"{op} changed hyper-parameters ({what}; mode {mode}): in force before the call {before}, after it {after}", desc)
+                failed = True
+                break
+            if state["bad"] is not None and mode != "MT~":
+                s_, rho_, conf_ = state["bad"]
+                ctx.issue("violation", f"{name}:first-threshold!=configured:{'after-attribute-assignment' if assigned else 'numpy-scalar'}",
+                          f"sample {s_} was first judged against rho={rho_}, the value in force is {conf_} ({what}; mode {mode})", desc)
+                failed = True
+                break
+            if fam.has_predict and r.random() < 0.3:
+                try:
+                    fam.predict(est, sl)
+                    if not eq_snap(before, params_tree(est)):
+                        ctx.issue("violation", f"{name}.predict:params-changed:{'numpy-scalar' if use_np else 'after-attribute-assignment'}",
+                                  f"predict changed hyper-parameters ({what}): before {before} after {params_tree(est)}", desc)
+                        failed = True
+                        break
+                    cov.hit("reconf-predict-checked")
+                except Exception as e:
+                    cov.hit(f"reconf-predict-raised:{name}:{exc_enum(e)}")
+        if state["moved"]:
+            cov.hit("reconf:threshold-moved-during-search" + (":numpy-scalar" if use_np else ""))
+        if not failed:
+            cov.hit(f"reconf-history:{variant}:{'reset-function' if use_reset else 'labels' if name not in bare else 'plain'}")
+        cov.case(("reconf", name, fam.spec, desc["rows"], mode, eps, variant, str(desc["history"])),
+                 (assigned > 0 and ncalls >= 2) or state["moved"])
